@@ -19,7 +19,7 @@ from ..trace import (HOT_FUNCS, PCT, Deadlock, HarnessError, Placed, RandomWalk,
 ID = "C19"
 NAME = "c19"
 LEVEL = "exploration"
-BUDGET = {"quick": 90, "thorough": 900}
+BUDGET = {"quick": 150, "thorough": 900}
 ASSUMPTIONS = [
     "pre-emption granularity is the source line of library / generated / world code under the GIL; "
     "free-threaded builds and pre-emption inside C functions are not modelled",
@@ -316,6 +316,29 @@ def run_job(job):
             if not samples and r["nswitch"]:
                 samples.append({"scenario": scen["label"], "pre-emption": places[i],
                                 "switches": r["switches"][:6]})
+    elif job["kind"] == "fixed_pairs":
+        # two placed pre-emptions: thread A is suspended at L1 (a line of the "is it built yet?" /
+        # build path), thread B runs and is suspended at L2 (generated entry point, a method body,
+        # table lookup / resolution), A runs to completion, then B.
+        base = fixed_scenario(job["name"], job["shape"])
+        a, b = job["victim"], 1 - job["victim"]
+        tr_a, tr_b = solo_trace(base, a), solo_trace(base, b)
+        f1 = ("ensure_compiled", "_is_built", "f") if not job.get("wide") else \
+            ("ensure_compiled", "_is_built", "f", "compile", "resolve", "__missing__")
+        l1 = [loc for loc in dict.fromkeys(tr_a)
+              if loc.split(":")[1] in f1 and not loc.startswith("<simworld>")]
+        l2 = [loc for loc in dict.fromkeys(tr_b)
+              if loc.startswith(("<ovld>", "<simworld>", "typemap.py:"))]
+        pairs = [(x, y) for x in l1 for y in l2]
+        stats["by_shape"]["pairs:" + job["shape"]] = 0
+        for i in range(job["part"], len(pairs), job["stride"]):
+            x, y = pairs[i]
+            scen = dict(base)
+            scen["strategy"] = {"kind": "placed", "places": [[a, x, 1, b], [b, y, 1, a]]}
+            scen["first"] = a
+            r = run_one(scen, stats, violations)
+            stats["by_shape"]["pairs:" + job["shape"]] += 1
+            dig = (dig * 1000003 + r["digest"]) & ((1 << 61) - 1)
     else:
         for index in range(job["index"], job["index"] + job["count"]):
             scen = seeded_scenario(job["seed"], index)
@@ -342,6 +365,12 @@ def jobs(tier, seed):
                 for part in range(stride):
                     yield {"kind": "fixed_placed", "name": name, "shape": shape, "victim": victim,
                            "stride": stride, "part": part, "all_visits": tier == "thorough"}
+    for name in (("chain",) if tier == "quick" else FIXED):
+        for shape in (("S1_first_same", "S2_first_diff") if tier == "quick" else FIXED_SHAPES):
+            for victim in (0, 1):
+                for part in range(4):
+                    yield {"kind": "fixed_pairs", "name": name, "shape": shape, "victim": victim,
+                           "stride": 4, "part": part, "wide": tier == "thorough"}
     if tier == "quick":
         for i in range(0, 1600, 25):
             yield {"kind": "seeded", "seed": seed, "index": i, "count": 25, "opcode_every": 8}
